@@ -105,6 +105,12 @@ theorem terminal_table_is_last_frame (ops : List WOp) (h : FramesKeyFun [] ops) 
     ∀ k, (World.init.run ops).term.places k = tableOf (World.init.run ops).ps.last k :=
   (run_inv ops World.init ⟨fun _ => rfl, keyFun_nil⟩ h).1
 
+/-- The terminal of the theorems here is nothing but the emitted command sequence folded in order: `World.trace` is the
+    concatenation of what the renders of the history wrote (the list the driver compares with the implementation's
+    console output, `Q=`), and running it from the empty terminal gives the terminal of `World.run`. -/
+theorem terminal_is_fold_of_commands (ops : List WOp) :
+    (World.init.run ops).term = Term.empty.run (World.trace World.init ops) := trace_run ops World.init
+
 /-- After a render the saved list is the frame just drawn, so right after any `Render` / `Refresh` the terminal shows
     exactly the placements the application drew since the last `Clear`. -/
 theorem terminal_table_after_render (ops : List WOp) (op : WOp) (hop : op = .render ∨ op = .refresh)
@@ -142,6 +148,24 @@ theorem keyfun_needed :
     let ops : List WOp := [.draw a, .render, .draw a', .render, .clear, .draw a', .render]
     (World.init.run ops).ps.last = [a'] ∧ (World.init.run ops).term.places (key a') = none := by
   constructor <;> decide
+
+/-- **A limit of the terminal model** (observation O2 of the notes): kitty itself removes an image's placements when
+    data is transmitted again under its id.  `render` never re-places the kept placements of an image whose data it
+    retransmits; that is harmless when a `Resize` changes the cell size (every placement of the image then differs and
+    is rewritten), but a `Resize` to another pixel size with the SAME cell size leaves the placements "the same", the
+    new data goes out with the next placement of the image that changes — and on such a terminal the image's other
+    placements vanish although the bookkeeping (and the lenient terminal model of the theorems above) keeps them. -/
+theorem retransmission_drops_kept_placements :
+    let a1 : Placement := ⟨1, 1, 1, 2, 2⟩
+    let a2 : Placement := ⟨1, 5, 5, 2, 2⟩
+    let a3 : Placement := ⟨1, 6, 6, 2, 2⟩
+    let ops : List WOp := [.resize 1 true, .draw a1, .draw a2, .render,
+                           .resize 1 true, .clear, .draw a1, .draw a3, .render]
+    (World.init.run ops).ps.last = [a1, a3] ∧
+    (World.init.run ops).term.places (key a1) = some a1 ∧
+    ((World.trace World.init ops).foldl Term.applyDrop Term.empty).places (key a1) = none ∧
+    ((World.trace World.init ops).foldl Term.applyDrop Term.empty).places (key a3) = some a3 := by
+  refine ⟨by decide, by decide, by decide, by decide⟩
 
 /-! ## Image data -/
 
